@@ -22,28 +22,34 @@ Rec == Trace[l - 1]
 Symbol(c, d) == IF c.kind = "H" THEN <<d, "½">> ELSE <<d, "¼">>
 Canon(r) == [i \in 1..Len(r.w) |-> Symbol(r.w[i], r.dirs[i])]
 HasBare(r) == \E i \in 1..Len(r.w) : r.w[i].class = "BAREQ"
-\* Verdict.  Chains written with fraction-bearing spellings only: the full claim.  Chains with a bare quarter:
-\* the statement only says when a bare quarter MAY be an aliquot (under clean_qq or after a half), so the
-\* clause is one-directional; the fixed-point claim applies to every text.
+\* When is a bare quarter read as an aliquot?  Under clean_qq always; otherwise when it follows a half
+\* (through bare quarters only) that itself stands at a word boundary or after another half - glued behind a
+\* quarter ('NW¼N½ se') the half does not license it (that case is left open: no demand either way).
+RECURSIVE LicensingHalf(_, _)
+LicensingHalf(wd, i) == IF wd[i - 1].kind = "H" THEN i - 1 ELSE LicensingHalf(wd, i - 1)
+HalfUsable(r, h) == h = 1 \/ r.js[h - 1] # "NONE" \/ r.w[h - 1].kind = "H"
+MustBeAliquot(r, i) == r.clean \/ (AfterHalf(r.w, i) /\ HalfUsable(r, LicensingHalf(r.w, i)))
+MayBeAliquot(r, i) == Recognised(r.w, r.clean, i)
+AllMust(r) == \A i \in 1..Len(r.w) : r.w[i].class # "BAREQ" \/ MustBeAliquot(r, i)
+\* Verdict.  A chain all of whose components must be read as aliquots (fraction-bearing spellings, bare quarters
+\* under clean_qq or after a usable half): the full claim.  Otherwise: a bare quarter is an aliquot only where
+\* it may be, and is one where it must be; the fixed-point claim applies to every text.
 Clause(r) ==
   IF r.exc # "none" THEN "exception_raised"
-  ELSE IF ~HasBare(r) THEN
+  ELSE IF AllMust(r) THEN
          (IF r.pp # Canon(r) THEN "normal_form_differs_from_canonical_text"
           ELSE IF ~r.same THEN "results_differ_from_canonical_spelling"
           ELSE IF ~r.fixed THEN "normalised_text_is_not_a_fixed_point"
           ELSE "ok")
-  ELSE (IF \E i \in 1..Len(r.w) : r.w[i].class = "BAREQ" /\ r.bare[i] /\ ~Recognised(r.w, r.clean, i)
+  ELSE (IF \E i \in 1..Len(r.w) : r.w[i].class = "BAREQ" /\ r.bare[i] /\ ~MayBeAliquot(r, i)
         THEN "bare_quarter_treated_as_aliquot_without_clean_qq_or_half"
+        ELSE IF \E i \in 1..Len(r.w) : r.w[i].class = "BAREQ" /\ ~r.bare[i] /\ MustBeAliquot(r, i)
+        THEN "bare_quarter_after_half_not_treated_as_aliquot"
         ELSE IF ~r.fixed THEN "normalised_text_is_not_a_fixed_point" ELSE "ok")
-\* Drift: the model of what the code does with bare quarters.  The half that licenses a bare quarter must
-\* itself stand at a word boundary or after another half: glued behind a quarter ('NW¼N½ se') it does not count.
-RECURSIVE LicensingHalf(_, _)
-LicensingHalf(wd, i) == IF wd[i - 1].kind = "H" THEN i - 1 ELSE LicensingHalf(wd, i - 1)
-HalfUsable(r, h) == h = 1 \/ r.js[h - 1] # "NONE" \/ r.w[h - 1].kind = "H"
-ModelBare(r, i) == r.clean \/ (AfterHalf(r.w, i) /\ HalfUsable(r, LicensingHalf(r.w, i)))
+\* Drift: in the case left open the code does not treat the bare quarter as an aliquot today
 Drift == phase = "observed" =>
            \/ Rec.exc # "none" \/ ~HasBare(Rec)
-           \/ \A i \in 1..Len(Rec.w) : Rec.w[i].class = "BAREQ" => Rec.bare[i] = ModelBare(Rec, i)
+           \/ \A i \in 1..Len(Rec.w) : Rec.w[i].class = "BAREQ" => Rec.bare[i] = MustBeAliquot(Rec, i)
            \/ PrintT(<<"INFO", "drift", Rec.id>>)
 Verdict == phase = "observed" => (Clause(Rec) = "ok" \/ PrintT(<<"FAIL", Rec.id, Clause(Rec)>>))
 AllConsumed ==
